@@ -18,7 +18,8 @@ Definition ident_eqb : ident -> ident -> bool := list_eqb N.eqb.
 Definition qname_eqb : qname -> qname -> bool := list_eqb ident_eqb.
 
 (* ------------------------------------------------------------------ *)
-(* contextRefName (repaired: the last component of the reference is never stripped) *)
+(* the stripping loop of contextRefName (the last component of the reference is never stripped);
+   [context_ref_name] below is the function as it was before the capture check was added *)
 Fixpoint strip_common (ref ctx : qname) {struct ctx} : qname :=
   match ctx with
   | [] => ref
@@ -130,6 +131,40 @@ Definition resolve (st : symtab) (pkg ctx_path name : qname) : option qname :=
       | _ => None
       end
   end.
+
+(* ------------------------------------------------------------------ *)
+(* contextRefName as it is now: before printing the shortened name it checks that no scope the
+   parser searches earlier declares the name's first component; otherwise the full name is printed
+   with a leading dot (nameShadowed / packageNameCaptured / declaresName) *)
+Definition capture_same (st : symtab) (pkg ctx : qname) (j : nat) (first : ident) : bool :=
+  existsb (fun k => is_type st (pkg ++ firstn k ctx ++ [first])) (seq (S j) (length ctx - j)).
+
+Definition capture_other (st : symtab) (pkg ctx : qname) (first : ident) : bool :=
+  existsb (fun k => is_type st (pkg ++ firstn k ctx ++ [first])) (seq 1 (length ctx))
+  || existsb (fun k => is_type st (firstn k pkg ++ [first]) || is_namespace st (firstn k pkg ++ [first]))
+             (seq 1 (length pkg)).
+
+Record printed_name := { pn_abs : bool; pn_name : qname }.   (* pn_abs: leading dot *)
+
+Definition context_ref_name_safe (st : symtab) (ctx_pkg ctx_path ref_pkg ref_path : qname) : printed_name :=
+  if qname_eqb ctx_pkg ref_pkg then
+    let short := strip_common ref_path ctx_path in
+    let j := (length ref_path - length short)%nat in
+    if capture_same st ctx_pkg ctx_path j (hd [] short)
+    then {| pn_abs := true; pn_name := ref_pkg ++ ref_path |}
+    else {| pn_abs := false; pn_name := short |}
+  else
+    if capture_other st ctx_pkg ctx_path (hd [] ref_pkg)
+    then {| pn_abs := true; pn_name := ref_pkg ++ ref_path |}
+    else {| pn_abs := false; pn_name := ref_pkg ++ ref_path |}.
+
+(* a name with a leading dot is looked up as it is *)
+Definition resolve_printed (st : symtab) (pkg ctx_path : qname) (p : printed_name) : option qname :=
+  if pn_abs p then (if is_type st (pn_name p) then Some (pn_name p) else None)
+  else resolve st pkg ctx_path (pn_name p).
+
+Definition printed_text (p : printed_name) : list N :=
+  if pn_abs p then 46 :: join_dot (pn_name p) else join_dot (pn_name p).
 
 (* ------------------------------------------------------------------ *)
 (* option values as the printer walks them (optionreflect.OptionField) and their tokens *)
